@@ -16,7 +16,7 @@ PROPERTY = "C14"
 LEVEL = "exploration"
 BUDGET_S = {"quick": 40, "thorough": 600}
 FLOOR = {"quick": 1500, "thorough": 15000}
-MUST_REACH = ("contract_evaluations", "merges_observed", "refusals_judged", "repeated_collapse_same_objects")
+MUST_REACH = ("contract_evaluations", "merges_observed", "refusals_judged", "repeated_collapse_same_objects", "iterable_arguments")
 RULE = ("lists of 1..24 contiguous addresses built to trigger chains of merges (sibling pairs at several levels, supernets "
         "before/after subnets, duplicates, /0, two /1, /32 pairs, notes on inputs), every spelling, both address classes, "
         "both platforms, all permutations of lists with <= 5 elements (thorough) or a few shuffles (quick); refusal cases: "
@@ -40,6 +40,8 @@ def _cube_of(addr):
 
 def _snap(addresses):
     out = []
+    if not isinstance(addresses, (list, tuple)):
+        return out
     for a in list(addresses):
         try:
             out.append((type(a).__name__, a.platform, a.line, _cube_of(a)))
@@ -49,8 +51,13 @@ def _snap(addresses):
 
 
 def _post(addresses, result, OLD) -> bool:
+    if not isinstance(addresses, (list, tuple)):
+        return True  # one-shot iterables are judged by the driver (a snapshot would consume them)
+    return _judge(OLD.inp, result, addresses)
+
+
+def _judge(snap, result, addresses=None) -> bool:
     STATS["contract"] += 1
-    snap = OLD.inp
     problems = []
     before = [c for _, _, _, c in snap]
     after = [_cube_of(r) for r in result]
@@ -132,7 +139,16 @@ def execute(ctx, case: dict) -> None:
         objs.append(obj)
     union_all = bits.union_size([_cube_of(o) for o in objs]) == 1 << 32
     try:
-        func(objs)
+        kind = case.get("container", "list")
+        if kind == "list":
+            func(objs)
+        else:
+            snap = _snap(objs)
+            arg = {"tuple": tuple(objs), "iter": iter(objs), "gen": (o for o in objs), "map": map(lambda o: o, objs)}[kind]
+            res = func(arg)
+            ctx.count("iterable_arguments")
+            if kind != "tuple":
+                _judge(snap, res)
         for again in case.get("again", []):
             # history on the same objects: permutation / sub-list / single element / same list again
             sub = [objs[i] for i in again if i < len(objs)]
@@ -202,6 +218,15 @@ def gen_cases(ctx):
         [(0xFFFFFFFF, 0), (0xFFFFFFFE, 0)],
         [(0, 0), (1, 0), (2, 0), (3, 0), (4, 3)],
     ]
+    # a block given literally and as its halves, its sibling only as halves: every ordering (a rebuilt supernet may come out after its half)
+    five = [(0x0A000000, 1), (0x0A000002, 1), (0x0A000004, 1), (0x0A000006, 1), (0x0A000000, 3)]
+    for n, perm in enumerate(itertools.permutations(five)):
+        if n % ctx.nshards == ctx.shard:
+            cls = "Address" if n % 2 else "AddressAg"
+            platform = "nxos" if n % 4 < 2 else "ios"
+            texts = [spell(rng, c, platform, cls) for c in perm]
+            if None not in texts:
+                yield {"cls": cls, "platform": platform, "items": texts, "perm": True}
     for n, cubes in enumerate(fixed):
         if n % ctx.nshards == ctx.shard:
             for cls in ("Address", "AddressAg"):
@@ -236,7 +261,7 @@ def gen_cases(ctx):
         texts = [spell(rng, c, platform, cls) for c in cubes]
         if None in texts or not texts:
             continue
-        case = {"cls": cls, "platform": platform, "items": texts}
+        case = {"cls": cls, "platform": platform, "items": texts, "container": rng.choice(["list", "list", "list", "tuple", "iter", "gen", "map"])}
         if rng.random() < 0.4:
             n = len(texts)
             case["again"] = [rng.sample(range(n), rng.randint(1, n)) for _ in range(rng.randint(1, 3))]
